@@ -59,6 +59,7 @@ def backgrounds(tier, phase):
     for h in hues:
         bgs.append(_hue_tint(h, 0.92, 0.05))   # light tint
         bgs.append(_hue_tint(h, 0.30, 0.08))   # dark tint
+    bgs.append((160 + g, 160 + g, 160 + g))      # mid-light: relative luminance ~0.35, where black still beats white by far
     if tier == "quick":
         bgs += [(115, 83, 215)]                # mid-tone, chromatic, L > 0.5: exercises the direction rule
         return _dedupe(bgs[:6] + bgs[6:9] + bgs[11:])
@@ -66,7 +67,7 @@ def backgrounds(tier, phase):
         bgs.append(_hue_tint(h, 0.55, 0.12))   # mid tints just above L = 0.5
         bgs.append(_hue_tint(h, 0.47, 0.10))   # and just below
     bgs += [(255, 0, 0), (0, 128, 0), (0, 0, 255), (255, 255, 0), (0, 255, 255), (255, 0, 255), (115, 83, 215),
-            (90, 90, 90), (110, 110, 110), (128, 128, 128), (200, 200, 200)]
+            (90, 90, 90), (110, 110, 110), (128, 128, 128), (200, 200, 200), (188, 188, 188), (153, 164, 156)]
     return _dedupe(bgs)
 
 
